@@ -353,8 +353,15 @@ class SymReal:
     __index__ = __int__
 
     def __round__(self, n=None):
-        cur().note_assumption("round() treated as identity on symbolic reals")
-        return self
+        # round(x, n) is a decimal number with n places within half a unit of the last place of x (ties either way)
+        eng = cur()
+        k = 0 if n is None else int(n)
+        scale = z3.RealVal(10) ** k if k >= 0 else 1 / (z3.RealVal(10) ** (-k))
+        scale = z3.simplify(scale)
+        r = eng.real(f"round{next(eng._fresh)}")
+        half = z3.simplify(z3.RealVal(1) / (2 * scale))
+        eng.assume(z3.And(r.e - self.e <= half, self.e - r.e <= half, z3.IsInt(r.e * scale)), silent=True)
+        return r
 
     def round(self, n=None):
         return self.__round__(n)
